@@ -49,7 +49,9 @@ def run(tier, replay=None):
     values = {}
     for l in open(os.path.join(wd, "types_values.ndjson")):
         o = json.loads(l)
-        if o["valid"] and '"zz"' not in json.dumps(o["v"]):
+        # (the table-driven stage code of the run-time part writes numbers through float64:
+        # integers beyond 2^53 are left to the C16 / C17 tables)
+        if o["valid"] and '"zz"' not in json.dumps(o["v"]) and '"big"' not in json.dumps(o["v"]):
             values.setdefault(json.dumps(o["t"], sort_keys=True), []).append(o["v"])
     cases = []
     for i, x in enumerate(rows):
